@@ -19,6 +19,8 @@ func init() {
 		Assumptions: []string{"sort.Slice sorts by the given less function", "status.Error(f) builds a status with the given code"},
 		Run:         runC01,
 		Controls: []Control{
+			{Name: "more-update-paths-delegates-to-update-mask", File: "pkg/resource/opt.go", Old: "\treturn WithMoreUpdateMask(&fieldmaskpb.FieldMask{Paths: paths})", New: "\treturn WithUpdateMask(&fieldmaskpb.FieldMask{Paths: paths})", Expect: "R01.16"},
+			{Name: "collection-save-stores-the-request", File: "pkg/resource/collection.go", Old: "\t\tfunc(msg proto.Message) {\n\t\t\tchangeTime = writeRequest.updateTime(c.clock)", New: "\t\tfunc(saved proto.Message) {\n\t\t\tchangeTime = writeRequest.updateTime(c.clock)", Expect: "R01.17"},
 			{Name: "pullid-drops-its-options", File: "pkg/resource/collection.go", Old: "\tchanges := c.Pull(ctx, opts...)\n", New: "\tchanges := c.Pull(ctx)\n", Expect: "R01.13"},
 			{Name: "allow-missing-ignores-argument", File: "pkg/resource/opt.go", Old: "\t\trequest.allowMissing = allowMissing\n", New: "\t\trequest.allowMissing = true\n", Expect: "R01.12"},
 			{Name: "delete-value-before-check", File: "pkg/resource/collection.go", Old: "\t\tif args.expectedCheck != nil {\n\t\t\tif err := args.expectedCheck(oldVal.body); err != nil {\n\t\t\t\treturn oldVal.body, err\n\t\t\t}\n\t\t}\n\t\tif args.expectedValue != nil && !proto.Equal(oldVal.body, args.expectedValue) {\n\t\t\treturn oldVal.body, ExpectedValuePreconditionFailed\n\t\t}\n", New: "\t\tif args.expectedValue != nil && !proto.Equal(oldVal.body, args.expectedValue) {\n\t\t\treturn oldVal.body, ExpectedValuePreconditionFailed\n\t\t}\n\t\tif args.expectedCheck != nil {\n\t\t\tif err := args.expectedCheck(oldVal.body); err != nil {\n\t\t\t\treturn oldVal.body, err\n\t\t\t}\n\t\t}\n", Expect: "R01.11"},
@@ -69,6 +71,10 @@ func runC01(c *an.Ctx) {
 	r0113(c, "R01.13")
 	c.Min("R01.13", 40)
 	r0114(c, "R01.14")
+	r0116(c, "R01.16")
+	c.Min("R01.16", 4)
+	r0117as(c, "R01.17")
+	c.Min("R01.17", 2)
 	r117as(c, "R01.15") // Add/Update never extend the caller's option list in place: a later call with the rest of that list would run with options it was not given (shared with R11.7)
 	c.Min("R01.15", 1)
 	c.Min("R01.14", 4)
@@ -1721,6 +1727,7 @@ func r0114(c *an.Ctx, rule string) {
 	r058(sub, "R05.8") // masks reach fmutils normalised (reset/update masks naming a path and one it covers)
 	r068(sub, "R06.8") // an empty mask is not "no mask"
 	r0511(sub, "R05.11") // WithMore… options accumulate: two of them on one write both count
+	r0513(sub, "R05.13") // a masked write naming a map field does not panic
 	n := 0
 	for _, o := range sub.Obls {
 		o.Key = rule + "|" + o.Construct
@@ -1729,4 +1736,94 @@ func r0114(c *an.Ctx, rule string) {
 		n++
 	}
 	c.Count("shared_mask_validation_obligations", n)
+}
+
+// r0116: the path-list spelling of a write option is the mask spelling of the SAME option. WithMoreUpdatePaths(p…)
+// is WithMoreUpdateMask(&FieldMask{Paths: p}), WithResetPaths is WithResetMask, and so on; delegating to a
+// neighbour (WithMoreUpdatePaths -> WithUpdateMask) compiles, and turns "also these paths" into "only these paths".
+func r0116(c *an.Ctx, rule string) {
+	n := 0
+	for _, fn := range c.Prog.FuncsIn(resPkg) {
+		if fn.Parent() != nil || fn.Object() == nil || !fn.Object().Exported() || !strings.HasPrefix(fn.Name(), "With") || !strings.HasSuffix(fn.Name(), "Paths") {
+			continue
+		}
+		stem := strings.TrimSuffix(fn.Name(), "Paths")
+		var callee string
+		an.Instrs(fn, func(in ssa.Instruction) {
+			call, ok := in.(*ssa.Call)
+			if !ok {
+				return
+			}
+			if f := call.Call.StaticCallee(); f != nil && f.Pkg == fn.Pkg && strings.HasPrefix(f.Name(), "With") {
+				callee = f.Name()
+			}
+		})
+		if callee == "" {
+			continue
+		}
+		n++
+		c.SawFunc(an.FuncName(fn))
+		ok := callee == stem+"Mask" || callee == stem+"Fields"
+		c.Check(ok, rule, an.FuncName(fn)+"|delegates to the mask spelling of the same option", fn.Pos(), callee,
+			"the path-list spelling delegates to "+callee+", which is another option: the paths are applied with that option's meaning (replace instead of add, update instead of reset)")
+	}
+	c.Count("path_spellings", n)
+}
+
+// r0117: what the save callback stores is what it is given. GetAndUpdate hands the merged message to its save
+// function; Value.set and Collection.Update store it and return/announce the same message. A save function that
+// stores a captured variable instead (the request message, after its parameter was renamed) keeps returning and
+// announcing the merged message while the store holds the raw request: masks, interceptors and resets are lost in
+// what Get returns, and the stored item is the caller's own object.
+func r0117as(c *an.Ctx, rule string) {
+	n := 0
+	for _, t := range [][2]string{{"Value", "set"}, {"Collection", "Update"}} {
+		fn := mustFunc(c, rule, resPkg, t[0], t[1])
+		if fn == nil {
+			continue
+		}
+		name := an.FuncName(fn)
+		for _, vc := range an.CallsToDeep(fn, an.ModulePath+"/pkg/resource.GetAndUpdate") {
+			call := vc.Inner
+			args := call.Common().Args
+			if len(args) < 4 {
+				continue
+			}
+			save := an.ClosureFn(args[3])
+			if save == nil || len(save.Params) != 1 {
+				c.Unk(rule, name+"|the save callback stores its argument", call.Pos(), "the save callback is not a function literal with one parameter")
+				continue
+			}
+			n++
+			stored, fromParam, fromCapture := 0, true, ""
+			an.Instrs(save, func(in ssa.Instruction) {
+				st, ok := in.(*ssa.Store)
+				if !ok || !strings.HasSuffix(st.Val.Type().String(), "proto.Message") {
+					return
+				}
+				stored++
+				derives := false
+				for _, s := range an.SourcesOpaque(st.Val) {
+					if s == ssa.Value(save.Params[0]) {
+						derives = true
+					}
+					if fv, isFV := s.(*ssa.FreeVar); isFV {
+						fromCapture = fv.Name()
+					}
+					if u, isU := s.(*ssa.UnOp); isU {
+						if fv, isFV := u.X.(*ssa.FreeVar); isFV {
+							fromCapture = fv.Name()
+						}
+					}
+				}
+				if !derives {
+					fromParam = false
+				}
+			})
+			c.SawFunc(name)
+			c.Check(stored > 0 && fromParam, rule, name+"|the save callback stores its argument", call.Pos(), fmt.Sprintf("%d message store(s), each of the callback's parameter", stored),
+				"the save callback stores a message that is not its own argument (captured "+fromCapture+"): the store keeps the request message while the call returns and announces the merged one")
+		}
+	}
+	c.Count("save_callbacks", n)
 }
